@@ -170,6 +170,14 @@ def tree(root):
 
 
 def run_case(acc, cseed, tmpdir, state):
+    cwd = os.getcwd()
+    try:
+        return run_case_(acc, cseed, tmpdir, state)
+    finally:
+        os.chdir(cwd)
+
+
+def run_case_(acc, cseed, tmpdir, state):
     import ecdsa
     import signapp
     import signonetime
@@ -182,7 +190,7 @@ def run_case(acc, cseed, tmpdir, state):
     # file naming: distinct names in one directory, or the same name in a directory per
     # image (ui/app.hex, signer/app.hex ...), or names that are prefixes of each other
     naming = rng.choice(["distinct", "distinct", "same-name-other-dir", "prefix-names",
-                         "pattern-characters"])
+                         "pattern-characters", "data-like-names"])
     odd_names = []
     if naming == "pattern-characters":
         # names that mean something else to a shell, a glob, a format string or a path
@@ -208,6 +216,14 @@ def run_case(acc, cseed, tmpdir, state):
             p = os.path.join(tmpdir, "app" + ".hex" * (i + 1))
         elif naming == "pattern-characters" and i > 0:
             p = os.path.join(tmpdir, odd_names[i - 1])
+        elif naming == "data-like-names":
+            # images addressed by a bare relative name (the tools run in their directory)
+            # that reads like data: 64 hex digits (a hash), 0x + hex, a number, an option
+            # value, a URL - to the tools it is the name of a file
+            os.chdir(tmpdir)
+            p = [rng.randbytes(32).hex(), "0x" + rng.randbytes(32).hex(), str(rng.randrange(10**6)),
+                 rng.randbytes(32).hex().upper(), "http:", "true", "None"][i % 7] + \
+                ("" if i < 7 else str(i))
         else:
             p = os.path.join(tmpdir, "app%d.hex" % i)
         acc.count("naming_" + naming)
